@@ -1,4 +1,5 @@
 import Mkdb.Proofs.RefineStmtB
+import Mkdb.Proofs.ColumnNames
 import Mkdb.Proofs.Tuple
 import Mkdb.Spec.Tables
 import Mkdb.Model.Engine
@@ -27,6 +28,31 @@ theorem specCols_eq (schema : List FieldDef) (cols : List Bytes) :
   unfold colsOf
   rw [List.isEmpty_map]
   rfl
+
+/-- **INSERT, plain model ⇒ model.**  A column list the plain model accepts passes the model's
+`checkColumns`; with no column list the model checks the relation's own column names, which are
+distinct. -/
+theorem checkColumns_of_namesOK (st : Spec.STable) (cols : List Bytes)
+    (hnd : (st.cols.map (·.name)).Nodup)
+    (h : Spec.namesOK st (cols.map Spec.nameStr) = true) :
+    checkColumns st.cols (colsOf st.cols (cols.map Engine.bytesToName)) = none := by
+  unfold colsOf
+  rw [List.isEmpty_map]
+  split
+  · exact (checkColumns_self st.cols).mpr hnd
+  · exact (namesOK_iff_checkColumns st _).mp h
+
+/-- what the name test of `specInsert` leaves of a statement with at least one row -/
+theorem specInsert_namesOK {sdb sdb' : Spec.SDB} {table : Bytes} {cols : List Bytes} {st : Spec.STable}
+    {r : List Val} {rest : List (List Val)} (hfind : Spec.findTable sdb table = some st)
+    (h : Spec.specInsert sdb table cols (r :: rest) = some sdb') :
+    Spec.namesOK st (cols.map Spec.nameStr) = true := by
+  unfold Spec.specInsert at h
+  rw [hfind] at h
+  simp only [Option.bind_eq_bind, Option.bind_some, List.isEmpty_cons, Bool.not_false, Bool.true_and] at h
+  cases hn : Spec.namesOK st (cols.map Spec.nameStr) with
+  | true => rfl
+  | false => rw [hn] at h; simp at h
 
 /-! ### `get` -/
 
@@ -195,10 +221,11 @@ theorem specRowOf_none_iff (st : Spec.STable) (cols : List Bytes) (vals : List V
 def absTable (name : Bytes) (schema : List FieldDef) (t : Levels) : Spec.STable :=
   ⟨name, schema, (rowsOf schema (live t)).map fun r => ⟨some r.1, r.2⟩⟩
 
-/-- one user table against one spec table: the catalog gives the schema, every live cell decodes
-with it, and the spec table is the abstraction of the tree -/
+/-- one user table against one spec table: the catalog gives the schema, no two columns of which have
+one name (CREATE TABLE refuses a repeated column name), every live cell decodes with it, and the spec
+table is the abstraction of the tree -/
 def TblAbs (sch : Levels) (e : Bytes × Levels) (st : Spec.STable) : Prop :=
-  ∃ schema, schemaOf sch e.1 = some schema ∧
+  ∃ schema, schemaOf sch e.1 = some schema ∧ (schema.map (·.name)).Nodup ∧
     (∀ c ∈ live e.2, ∃ m, decodeTuple schema c.val [] = .ok m) ∧ st = absTable e.1 schema e.2
 
 /-- the spec database is the list of the abstractions of the user tables, in order -/
@@ -219,7 +246,7 @@ def valsOf (sdb : Spec.SDB) : List (Bytes × List FieldDef × List (List Val)) :
 
 theorem TblAbs.name {sch : Levels} {e : Bytes × Levels} {st : Spec.STable} (h : TblAbs sch e st) :
     st.name = e.1 := by
-  obtain ⟨schema, _, _, rfl⟩ := h
+  obtain ⟨schema, _, _, _, rfl⟩ := h
   rfl
 
 theorem AbsTables.map {sch : Levels} (f : Bytes × Levels → Bytes × Levels) (g : Spec.STable → Spec.STable)
@@ -251,7 +278,7 @@ theorem AbsTables.find {sch : Levels} {tbls : List (Bytes × Levels)} {sdb : Spe
     simp only [List.map_cons, List.nodup_cons] at hnd
     unfold Spec.findTable
     rcases List.mem_cons.mp ht with rfl | ht'
-    · obtain ⟨schema, h1, h2, rfl⟩ := hx
+    · obtain ⟨schema, h1, _, h2, rfl⟩ := hx
       refine ⟨schema, h1, h2, ?_⟩
       simp [absTable]
     · have hne : st.name ≠ table := by
@@ -263,6 +290,21 @@ theorem AbsTables.find {sch : Levels} {tbls : List (Bytes × Levels)} {sdb : Spe
       have hb : (st.name == table) = false := by simpa using hne
       simp only [List.find?_cons, hb]
       exact h3
+
+/-- the columns of a user table have distinct names -/
+theorem AbsTables.names_nodup {sch : Levels} {tbls : List (Bytes × Levels)} {sdb : Spec.SDB}
+    (h : AbsTables sch tbls sdb) {table : Bytes} {t : Levels} (ht : (table, t) ∈ tbls)
+    {schema : List FieldDef} (hsch : schemaOf sch table = some schema) : (schema.map (·.name)).Nodup := by
+  induction h with
+  | nil => cases ht
+  | cons hx hrest ih =>
+    rcases List.mem_cons.mp ht with rfl | ht'
+    · obtain ⟨schema', h1, hnd, _, _⟩ := hx
+      simp only at h1
+      rw [hsch] at h1
+      cases h1
+      exact hnd
+    · exact ih ht'
 
 /-- a name the catalog does not have is unknown to the spec -/
 theorem AbsTables.find_none {sch : Levels} {tbls : List (Bytes × Levels)} {sdb : Spec.SDB}
@@ -309,13 +351,13 @@ theorem AbsTables.setTable {sch : Levels} {tbls : List (Bytes × Levels)} {sdb :
   by_cases hn : e.1 = table
   · have heq : e = (table, t) := inj_of_nodup_map (·.1) tbls hnd e he (table, t) ht hn
     subst heq
-    obtain ⟨schema', h1, _, rfl⟩ := hx
+    obtain ⟨schema', h1, hnd', _, rfl⟩ := hx
     simp only at h1
     rw [hsch] at h1
     simp only [Option.some.injEq] at h1
     subst h1
     simp only [if_true]
-    refine ⟨schema, hsch, hdec', ?_⟩
+    refine ⟨schema, hsch, hnd', hdec', ?_⟩
     unfold updRows
     have hb : ((absTable table schema t).name == table) = true := by simp [absTable]
     simp only [hb, if_true]
